@@ -77,7 +77,7 @@ Proof.
   - destruct (is_prefix sep (x :: s)); [inversion H; lia|]. apply IH in H. lia.
 Qed.
 
-Lemma lex_literal_det l res : lex_literal inp1 n1 base l = Ok res -> l_pos (snd res) + M <= h -> fst res <> LDone ->
+Lemma lex_literal_det l res : lex_literal inp1 n1 base l = Ok res -> l_pos (snd res)+ m_literal <= h -> fst res <> LDone ->
   lex_literal inp2 n2 base l = Ok res.
 Proof using All.
   intros H Hb Hl. unfold lex_literal, double_close in *. pose proof kw_lens. start H; try solve [dead].
@@ -92,7 +92,7 @@ Lemma lex_soydoc_param_mono inp l r : lex_soydoc_param inp (Z.of_nat (length inp
 Proof using All.
   intros H Hn. unfold lex_soydoc_param in H. pose proof kw_lens. cbv zeta in H. crack; facts; monos; side2.
 Qed.
-Lemma lex_soydoc_param_det l res : lex_soydoc_param inp1 n1 base l = Ok res -> l_pos res + M0 <= h ->
+Lemma lex_soydoc_param_det l res : lex_soydoc_param inp1 n1 base l = Ok res -> l_pos res + m_sdparam <= h ->
   lex_soydoc_param inp2 n2 base l = Ok res.
 Proof using All. intros H Hb. unfold lex_soydoc_param in *. pose proof kw_lens. start H. all: replay2. Qed.
 
@@ -119,7 +119,7 @@ Ltac sdreplay :=
   | match goal with E : lex_soydoc_param _ _ _ ?l = Ok _ |- context [lex_soydoc_param _ _ _ ?l] =>
       rewrite (lex_soydoc_param_det _ _ E ltac:(side2)); cbn [bind] end ].
 
-Lemma soydoc_loop_det f1 : forall star sol l r, soydoc_loop inp1 n1 base f1 star sol l = Ok r -> l_pos (snd r) + M <= h ->
+Lemma soydoc_loop_det f1 : forall star sol l r, soydoc_loop inp1 n1 base f1 star sol l = Ok r -> l_pos (snd r)+ m_soydoc <= h ->
   forall f2, (2 * Z.to_nat (l_pos (snd r) + 8 - l_pos l) + (if sol then 1 else 0) < f2)%nat ->
   soydoc_loop inp2 n2 base f2 star sol l = Ok r.
 Proof using All.
